@@ -46,7 +46,7 @@ def mkcirc(st, oid, I):
     st.cls[oid] = CIRC
     for a in ('cx', 'cy'):
         st.heap[(oid, a)] = sym(I, '%s.%s' % (oid, a))
-    st.heap[(oid, 'r')] = I.symbol('%s.r' % oid, frozenset([0, 1]))
+    st.heap[(oid, 'r')] = I.symbol('%s.r' % oid)        # any finite radius, a negative one describes the empty set
     return Obj(oid)
 
 
@@ -54,7 +54,7 @@ def spec_and(I, st, atoms):
     """atoms: [(poly, allowed sign set)] -> True / False / None (not determined by the path's decisions)"""
     alltrue = True
     for p, allowed in atoms:
-        sg = I.infer_signs(st, p)
+        sg = p(st) if callable(p) else I.infer_signs(st, p)
         if sg <= allowed:
             continue
         if not (sg & allowed):
@@ -78,6 +78,24 @@ def hyp(I, a, b):
         if c in I.syminfo:
             return Poly.sym(c)
     return None
+
+
+def in_disc(I, r, a, b):
+    """sign of r - hypot(a, b) as a function of the path state, whichever way the code phrased the test:
+    directly (r >= hypot(a, b)) or through squares (r >= 0 and a*a + b*b <= r*r).  For r < 0 the difference is negative;
+    for r >= 0 it has the sign of r^2 - a^2 - b^2."""
+    def signs(st):
+        sr = I.infer_signs(st, r)
+        out = set()
+        if -1 in sr:
+            out.add(-1)
+        if sr & frozenset([0, 1]):
+            out |= set(I.infer_signs(st, r * r - a * a - b * b))
+        h = hyp(I, a, b)
+        if h is not None:
+            out &= set(I.infer_signs(st, r - h))
+        return frozenset(out)
+    return signs
 
 
 def check_predicate(ctx, I, rule, where, label, res, atoms_fn):
@@ -120,10 +138,7 @@ def point_rules(ctx, I):
     res = I.run_method(st, CIRC, 'containsPoint', C, [x, y])
 
     def circ_atoms(s):
-        h = hyp(I, S('px') - S('C.cx'), S('py') - S('C.cy'))
-        if h is None:
-            return None
-        return [(S('C.r') - h, GE0)]
+        return [(in_disc(I, S('C.r'), S('px') - S('C.cx'), S('py') - S('C.cy')), GE0)]
     check_predicate(ctx, I, 'C17.R1', 'CircularRegion.containsPoint', 'disc.containsPoint', res, circ_atoms)
 
 
@@ -177,10 +192,7 @@ def region_rules(ctx, I):
         out = []
         for xn in ('O.x1', 'O.x2'):
             for yn in ('O.y1', 'O.y2'):
-                h = hyp(I, S(xn) - S('C.cx'), S(yn) - S('C.cy'))
-                if h is None:
-                    return None
-                out.append((S('C.r') - h, GE0))
+                out.append((in_disc(I, S('C.r'), S(xn) - S('C.cx'), S(yn) - S('C.cy')), GE0))
         return out
     check_predicate(ctx, I, 'C17.R3', 'CircularRegion.containsRegion', 'disc>=rectangle', res, corner_atoms)
     # disc contains disc
